@@ -4,45 +4,77 @@ import (
 	"fmt"
 	"math/rand"
 	"os"
-	"os/exec"
+	"strings"
+	"sync"
 	"syscall"
 	"time"
 
 	"verif/harness/tty"
 )
 
+// throw-away probe: header lines + reload bursts (lock order between the event box and the chunk list)
 func main() {
 	os.Setenv("VERIF_SCRATCH", "/tmp/probe-scr")
 	os.MkdirAll("/tmp/probe-scr", 0o755)
-	rng := rand.New(rand.NewSource(11))
-	bad, total := 0, 0
-	for trial := 0; trial < 60 && bad < 2; trial++ {
-		s, err := tty.Start(tty.StartOpts{InputCmd: "seq 1 60", Args: []string{"--no-unicode", "--info=hidden", "--no-scrollbar", "--multi"}, Cols: 60, Rows: 20})
-		if err != nil {
-			fmt.Println("start:", err)
-			return
-		}
-		s.WaitQuiescent(10 * time.Second)
-		for round := 0; round < 12; round++ {
-			for k := 0; k < 3; k++ {
-				s.Post([]string{"down", "toggle-sort", "half-page-down", "up", "put(1)", "clear-query", "toggle-all"}[rng.Intn(7)])
-			}
-			c, r := 30+rng.Intn(80), 8+rng.Intn(22)
-			s.Resize(c, r)
-			total++
-			if !s.WaitRedraw(c, r, 5*time.Second) {
-				bad++
-				psz, _ := s.PaneSize()
-				pid := s.FzfPid()
-				tty, _ := os.Readlink(fmt.Sprintf("/proc/%d/fd/2", pid))
-				out, _ := exec.Command("sh", "-c", "stty size < /dev/"+func() string { l, _ := os.Readlink(fmt.Sprintf("/proc/%d/fd/0", s.PanePid)); return l[5:] }()).CombinedOutput()
-				fmt.Printf("trial %d round %d: wanted %dx%d pane %s fzf pid %d fd2 %s stty size: %s", trial, round, c, r, psz, pid, tty, out)
-				syscall.Kill(pid, syscall.SIGWINCH)
-				fmt.Println(" after manual SIGWINCH redraw:", s.WaitRedraw(c, r, 3*time.Second))
-				break
-			}
-		}
-		s.Close()
+	var sb strings.Builder
+	for i := 0; i < 300; i++ {
+		fmt.Fprintf(&sb, "line %d\n", i)
 	}
-	fmt.Println("bad", bad, "of", total)
+	os.WriteFile("/tmp/probe-scr/in", []byte(sb.String()), 0o644)
+	var wg sync.WaitGroup
+	var mu sync.Mutex
+	stuck, sessions := 0, 0
+	for w := 0; w < 12; w++ {
+		wg.Add(1)
+		go func(w int) {
+			defer wg.Done()
+			rng := rand.New(rand.NewSource(int64(w) + 100))
+			for trial := 0; trial < 6; trial++ {
+				s, err := tty.Start(tty.StartOpts{InputCmd: "cat /tmp/probe-scr/in", Args: []string{"--header-lines=3"}, Cols: 60, Rows: 20, Points: os.Getenv("PROBE_POINTS")})
+				if err != nil {
+					fmt.Println("start:", err)
+					return
+				}
+				s.WaitQuiescent(10 * time.Second)
+				ok := true
+				for round := 0; round < 40 && ok; round++ {
+					s.Post("execute-silent(sleep 0.05)")
+					s.Post("reload(cat /tmp/probe-scr/in)")
+					for k := 0; k < rng.Intn(3); k++ {
+						s.Post([]string{"put(1)", "backward-delete-char", "toggle-sort", "reload(cat /tmp/probe-scr/in)"}[rng.Intn(4)])
+					}
+					if _, q := s.WaitQuiescent(8 * time.Second); !q {
+						ok = false
+						mu.Lock()
+						stuck++
+						fmt.Printf("STUCK worker %d trial %d round %d: %s\n", w, trial, round, s.LastWait)
+						if stuck == 1 {
+							s.Signal(syscall.SIGQUIT)
+							s.WaitExit(3 * time.Second)
+							d := s.Stderr()
+							for _, g := range strings.Split(d, "\n\n") {
+								if strings.Contains(g, "ChunkList") {
+									fmt.Println(g[:min(len(g), 900)])
+								}
+							}
+						}
+						mu.Unlock()
+					}
+				}
+				mu.Lock()
+				sessions++
+				mu.Unlock()
+				s.Close()
+			}
+		}(w)
+	}
+	wg.Wait()
+	fmt.Printf("sessions=%d stuck=%d\n", sessions, stuck)
+}
+
+func min(a, b int) int {
+	if a < b {
+		return a
+	}
+	return b
 }
